@@ -361,7 +361,9 @@ fn gen_lines(rng: &mut Rng, n: u64, lines: &mut Vec<String>) {
 
 fn main() {
 	let a = args();
-	std::panic::set_hook(Box::new(|_| {}));
+	if std::env::var("VERIF_DEBUG").is_err() {
+		std::panic::set_hook(Box::new(|_| {}));
+	}
 	let mut out = Out::new();
 	let mut lines = vec![];
 	if let Some(r) = &a.replay {
